@@ -480,6 +480,43 @@ theorem well_scoped_program_is_accepted (p : Ss) (hs : scopedL [] [] p) (hu : us
         rw [hk1] at this; exact this
     simp [this]
 
+/-! ### the two readings of "declared" agree: a well scoped block has no free name beyond what is visible -/
+
+mutual
+theorem fvS_visible : ∀ (s : St) (vis D : List Nat), scopedS vis D s → ∀ y ∈ fvS s, y ∈ D ∨ y ∈ vis
+  | .use us, vis, D, h, y, hy => by
+    simp only [scopedS] at h; simp only [fvS] at hy; exact h y hy
+  | .decl x us, vis, D, h, y, hy => by
+    simp only [scopedS] at h; simp only [fvS] at hy; exact h.1 y hy
+  | .scope ds hd body, vis, D, h, y, hy => by
+    simp only [scopedS] at h
+    simp only [fvS, List.mem_append, List.mem_filter, List.contains_eq_mem, Bool.not_eq_true', decide_eq_false_iff_not] at hy
+    rcases hy with hy | ⟨hy, hnd⟩
+    · exact (h.2.1 y hy).2
+    · rcases fvL_visible body (D ++ vis) ds h.2.2.1 y hy with h1 | h1
+      · exact absurd h1 hnd
+      · exact List.mem_append.mp h1
+theorem fvL_visible : ∀ (ss : Ss) (vis D : List Nat), scopedL vis D ss → ∀ y ∈ fvL ss, y ∈ D ∨ y ∈ vis
+  | .nil, _, _, _, y, hy => by simp [fvL] at hy
+  | .cons s rest, vis, D, h, y, hy => by
+    simp only [scopedL] at h
+    simp only [fvL, List.mem_append, List.mem_filter, List.contains_eq_mem, Bool.not_eq_true', decide_eq_false_iff_not] at hy
+    rcases hy with hy | ⟨hy, hnd⟩
+    · exact fvS_visible s vis D h.1 y hy
+    · rcases fvL_visible rest vis (declOf s ++ D) h.2 y hy with h1 | h1
+      · rcases List.mem_append.mp h1 with h2 | h2
+        · exact absurd h2 hnd
+        · exact Or.inl h2
+      · exact Or.inr h1
+end
+
+/-- an accepted program is closed: every name it mentions is bound by a declaration of the program -/
+theorem accepted_program_is_closed (p : Ss) (h : chkProg p = true) : fvL p = [] := by
+  have hs := (accepted_program_is_well_scoped p h).1
+  apply List.eq_nil_iff_forall_not_mem.mpr
+  intro y hy
+  rcases fvL_visible p [] [] hs y hy with h1 | h1 <;> cases h1
+
 /-- **the variable rules, exactly**: the bookkeeping accepts a program iff every name it mentions is declared, no
 scope declares a name twice, and every declared variable is used -/
 theorem accepted_iff_well_scoped (p : Ss) : chkProg p = true ↔ scopedL [] [] p ∧ usedL p :=
